@@ -25,12 +25,6 @@ func (p *parser) errAt(line int, format string, a ...interface{}) error {
 }
 
 func (p *parser) peek() token { return p.toks[p.i] }
-func (p *parser) peekN(n int) token {
-	if p.i+n < len(p.toks) {
-		return p.toks[p.i+n]
-	}
-	return p.toks[len(p.toks)-1]
-}
 func (p *parser) next() token {
 	t := p.toks[p.i]
 	if t.kind != tEOF {
@@ -69,14 +63,6 @@ func (p *parser) acceptKw(s string) bool {
 
 func (p *parser) expectOp(s string) error {
 	if !p.acceptOp(s) {
-		t := p.peek()
-		return p.errAt(t.line, "expected %q, found %q", s, t.text)
-	}
-	return nil
-}
-
-func (p *parser) expectKw(s string) error {
-	if !p.acceptKw(s) {
 		t := p.peek()
 		return p.errAt(t.line, "expected %q, found %q", s, t.text)
 	}
@@ -1002,7 +988,17 @@ func (p *parser) parsePrimary() (*Expr, error) {
 	switch {
 	case t.kind == tNumber:
 		p.next()
-		return &Expr{kind: exNum, num: t.num, line: t.line}, nil
+		num := t.num
+		// "8 'hff": a plain decimal followed by an unsized based literal
+		if nt := p.peek(); num.plain && nt.kind == tNumber && !nt.num.plain && !nt.num.sized {
+			joined, err := makeBased(num.digits, nt.num.base, nt.num.signed, nt.num.digits)
+			if err != nil {
+				return nil, p.errAt(t.line, "%v", err)
+			}
+			p.next()
+			num = joined
+		}
+		return &Expr{kind: exNum, num: num, line: t.line}, nil
 	case t.kind == tString:
 		p.next()
 		return &Expr{kind: exString, name: t.text, line: t.line}, nil
